@@ -307,8 +307,7 @@ Definition merge_proc (m : onconf) (b o t : content) : pres2 :=
   else match m with
        | Stop => QConflict
        | Abort => QAborted (norm o)
-       | Resolve h => let d := resolved h b o t in
-                      if content_eqb d (norm o) then QNoChange else QResolved d
+       | Resolve h => QResolved (resolved h b o t)   (* --continue commits even when the resolved rows equal HEAD's (observed) *)
        end.
 
 Definition cherry_pick2 (m : onconf) (head p c : content) : pres2 := merge_proc m p head c.
@@ -391,23 +390,35 @@ Definition reshape (from to : schema) (m : content) : content :=
   map (fun kr => if fst (fst kr) =? 1 then (fst kr, proj from to (snd kr)) else kr) m.
 Definition has_col (c : N) (s : schema) : bool := existsb (N.eqb c) s.
 
-(* ours without the columns theirs dropped, then the columns theirs added *)
-Definition schema_merge (sb so st : schema) : schema :=
-  filter (fun c => negb (has_col c sb && negb (has_col c st))) so
-  ++ filter (fun c => negb (has_col c sb) && negb (has_col c so)) st.
+(* column sets are kept sorted by column id (the order of columns is presentation only and is
+   not compared) *)
+Fixpoint insert_col (c : N) (l : schema) : schema :=
+  match l with
+  | [] => [c]
+  | x :: l' => if c <? x then c :: l else if c =? x then l else x :: insert_col c l'
+  end.
+Definition sort_cols (l : schema) : schema := fold_right insert_col [] l.
 
-(* a column dropped by one side while the other side changed its cell, in a row all three have *)
+(* ours without the columns theirs dropped, plus the columns theirs added *)
+Definition schema_merge (sb so st : schema) : schema :=
+  sort_cols (filter (fun c => negb (has_col c sb && negb (has_col c st))) so
+             ++ filter (fun c => negb (has_col c sb) && negb (has_col c so)) st).
+(* a column of the base dropped by one side while the other side changed its cell in a row the
+   base has (valueMerger.processBaseColumn: "modified on one side, dropped on the other") *)
 Definition drop_conflict_at (sb so st : schema) (b o t : content) (k : key) : bool :=
   if fst k =? 1 then
-    match get k b, get k o, get k t with
-    | Some rb, Some ro, Some rt =>
+    match get k b with
+    | Some rb =>
       existsb (fun c =>
-        (negb (has_col c st) && has_col c so && negb (cell_eqb (cell_of so ro c) (cell_of sb rb c)))
-        || (negb (has_col c so) && has_col c st && negb (cell_eqb (cell_of st rt c) (cell_of sb rb c)))) sb
-    | _, _, _ => false
+        (negb (has_col c st) && has_col c so
+         && match get k o with Some ro => negb (cell_eqb (cell_of so ro c) (cell_of sb rb c)) | None => false end)
+        || (negb (has_col c so) && has_col c st
+            && match get k t with Some rt => negb (cell_eqb (cell_of st rt c) (cell_of sb rb c)) | None => false end)) sb
+    | None => false
     end
   else false.
 
+(* rows are merged in the merged schema, a column a side does not have reading as NULL there *)
 Definition smerge3 (sb so st : schema) (b o t : content) : content :=
   let sm := schema_merge sb so st in merge3 (reshape sb sm b) (reshape so sm o) (reshape st sm t).
 Definition sclean (sb so st : schema) (b o t : content) : bool :=
